@@ -35,11 +35,23 @@ type c10Op struct {
 	// block layer (OverlayDB; K is the full key):
 	//   bput bdel bget biter breset bcommit
 	// persisted store (LevelDBStore; K is the full key): sget siter
+	// scan scripts with interleaved operations: tscan bscan (see Steps)
 	Op string `json:"op"`
 	K  ev.B   `json:"k,omitempty"`
 	V  ev.B   `json:"v,omitempty"`
 	P  int    `json:"p,omitempty"` // put/del/get: when >0 the key is the ((P-1) mod n)-th of the n keys mentioned so far (K if none)
 	M  int    `json:"m,omitempty"` // bcommit: bit0 = write-set path instead of CommitTo; M/2%3: 0 keep, 1 Reset, 2 fresh overlay+cache
+	// tscan / bscan: a scan SCRIPT on the transaction / block layer. Iterator 0 is opened with
+	// prefix K at the start; the steps then interleave other operations on the same CacheDB /
+	// OverlayDB with the (lazy) First and the Next calls; everything still open is drained at the end.
+	K2    ev.B        `json:"k2,omitempty"` // prefix of the optional second iterator (step "open1")
+	Steps []c10ScanSt `json:"steps,omitempty"`
+}
+
+type c10ScanSt struct {
+	A string `json:"a"`           // adv0 adv1 (First on first use, then Next) | open1 | get | put | del
+	K ev.B   `json:"k,omitempty"` // get/put/del: key (tscan: without the storage prefix; bscan: full key)
+	V ev.B   `json:"v,omitempty"` // put
 }
 
 type c10Case struct {
@@ -78,6 +90,30 @@ func genC10Val() *rapid.Generator[[]byte] {
 var c10Kinds = []string{
 	"tput", "tput", "tput", "tput", "tput", "tdel", "tdel", "tdel", "tget", "tget", "titer", "titer", "titer", "titer", "tcommit", "tcommit", "treset",
 	"bput", "bput", "bput", "bdel", "bdel", "bget", "biter", "biter", "biter", "bcommit", "breset", "sget", "siter",
+	"tscan", "tscan", "tscan", "bscan", "bscan",
+}
+
+// scan-script prefixes are mostly non-empty (an empty one cannot be told from a damaged one)
+func genC10ScanPrefix() *rapid.Generator[[]byte] {
+	return rapid.OneOf(rapid.SliceOfN(rapid.SampledFrom(c10Alphabet), 1, 2), rapid.SliceOfN(rapid.SampledFrom(c10Alphabet), 1, 1), genC10Prefix())
+}
+
+func genC10ScanSteps(tx bool) *rapid.Generator[[]c10ScanSt] {
+	key := genC10Full()
+	if tx {
+		key = genC10Suffix()
+	}
+	return rapid.SliceOfN(rapid.Custom(func(t *rapid.T) c10ScanSt {
+		st := c10ScanSt{A: rapid.SampledFrom([]string{"get", "get", "get", "get", "adv0", "adv0", "adv0", "adv1", "adv1", "open1", "open1", "put", "del"}).Draw(t, "a")}
+		switch st.A {
+		case "get", "del":
+			st.K = key.Draw(t, "k")
+		case "put":
+			st.K = key.Draw(t, "k")
+			st.V = genC10Val().Draw(t, "v")
+		}
+		return st
+	}), 1, 10)
 }
 
 func genC10Op(t *rapid.T) c10Op {
@@ -107,6 +143,14 @@ func genC10Op(t *rapid.T) c10Op {
 		}
 	case "bcommit":
 		op.M = rapid.IntRange(0, 5).Draw(t, "m")
+	case "tscan":
+		op.K = genC10ScanPrefix().Draw(t, "prefix")
+		op.K2 = genC10ScanPrefix().Draw(t, "prefix2")
+		op.Steps = genC10ScanSteps(true).Draw(t, "steps")
+	case "bscan":
+		op.K = append([]byte{stPrefix}, genC10ScanPrefix().Draw(t, "prefix")...)
+		op.K2 = append([]byte{stPrefix}, genC10ScanPrefix().Draw(t, "prefix2")...)
+		op.Steps = genC10ScanSteps(false).Draw(t, "steps")
 	}
 	switch op.Op {
 	case "tput", "tdel", "tget", "bput", "bdel", "bget", "sget":
@@ -349,6 +393,203 @@ func runC10Body(ctx0 *ev.Ctx, c c10Case) {
 		siter(where, nil)
 	}
 
+	// script runs a scan script on the transaction layer (tx) or the block layer: other operations
+	// of the same CacheDB / OverlayDB are interleaved with iterator creation, First and Next.
+	// Writes only go to keys outside both scanned prefixes, so the model's visible live keys under
+	// each prefix are the same at creation time and at every later point of the script: each
+	// iterator must yield exactly that list, whatever happened in between.
+	script := func(where string, op c10Op, tx bool) {
+		type cur struct {
+			it       scom.StoreIterator
+			pfx      []byte // full-key prefix
+			want     []kvPair
+			got      []kvPair
+			started  bool
+			done     bool
+			between  bool // something else ran between creation and First
+			betweenN bool // something else ran between two advances
+		}
+		full := func(k []byte) []byte {
+			if tx {
+				return append([]byte{stPrefix}, k...)
+			}
+			return append([]byte{}, k...)
+		}
+		pfxs := [][]byte{full(op.K), full(op.K2)}
+		if !tx && (len(op.K) == 0 || len(op.K2) == 0) {
+			return
+		}
+		expect := func(pfx []byte) []kvPair {
+			if tx {
+				return stripPrefix(m.scan(pfx, m.txView, m.tx, m.blk, m.store))
+			}
+			return m.scan(pfx, m.blockView, m.blk, m.store)
+		}
+		var curs [2]*cur
+		open := func(j int) {
+			arg := append([]byte{}, pfxs[j]...) // never touched again: OverlayDB documents that the iterator references it
+			c := &cur{pfx: pfxs[j], want: expect(pfxs[j])}
+			if tx {
+				c.it = cache.NewIterator(arg[1:])
+				if hardJoin(c.pfx, m.tx, []map[string][]byte{m.blk, m.store}, m.blockView) {
+					ctx.NonTrivial()
+					ctx.Label("hard-join:tx-scan")
+				}
+			} else {
+				c.it = overlay.NewIterator(arg)
+				if hardJoin(c.pfx, m.blk, []map[string][]byte{m.store}, func(k string) []byte { return m.store[k] }) {
+					ctx.NonTrivial()
+					ctx.Label("hard-join:block-scan")
+				}
+			}
+			for _, o := range curs {
+				if o != nil && !o.done {
+					if o.started {
+						o.betweenN = true
+					} else {
+						o.between = true
+					}
+				}
+			}
+			curs[j] = c
+		}
+		other := func(except int) { // an operation other than advancing iterator `except` happened
+			for j, o := range curs {
+				if o != nil && !o.done && j != except {
+					if o.started {
+						o.betweenN = true
+					} else {
+						o.between = true
+					}
+				}
+			}
+		}
+		adv := func(j int) {
+			c := curs[j]
+			if c == nil || c.done {
+				return
+			}
+			var ok bool
+			if !c.started {
+				c.started = true
+				ok = c.it.First()
+			} else {
+				ok = c.it.Next()
+			}
+			other(j)
+			if !ok {
+				c.done = true
+				return
+			}
+			c.got = append(c.got, kvPair{append([]byte{}, c.it.Key()...), append([]byte{}, c.it.Value()...)})
+			if len(c.got) > 100000 {
+				ctx.Failf("%s scan script: iterator over prefix %x does not terminate", where, c.pfx)
+			}
+		}
+		outside := func(fk []byte) bool {
+			return !bytes.HasPrefix(fk, pfxs[0]) && !bytes.HasPrefix(fk, pfxs[1])
+		}
+		read := func(k []byte) {
+			fk := full(k)
+			if len(fk) == 0 {
+				return
+			}
+			universe[string(fk)] = true
+			if tx {
+				tget(where+" scan script", k)
+			} else {
+				bget(where+" scan script", k)
+				if fk[0] == stPrefix {
+					tget(where+" scan script", fk[1:]) // a read through the layer above ends in OverlayDB.Get as well
+				}
+			}
+			other(-1)
+		}
+		wrote := false
+		open(0)
+		for _, st := range op.Steps {
+			switch st.A {
+			case "adv0":
+				adv(0)
+			case "adv1":
+				adv(1)
+			case "open1":
+				if curs[1] == nil {
+					open(1)
+					ctx.Label("scan-script:two-iterators")
+				}
+			case "get":
+				read(st.K)
+			case "put", "del":
+				fk := full(st.K)
+				if len(fk) == 0 || !outside(fk) {
+					read(st.K) // a write under a scanned prefix would make the expectation ambiguous
+					continue
+				}
+				v := []byte(st.V)
+				if st.A == "del" {
+					v = nil
+				}
+				universe[string(fk)] = true
+				switch {
+				case tx && len(v) == 0:
+					cache.Delete(st.K)
+				case tx:
+					cache.Put(st.K, v)
+				case len(v) == 0:
+					overlay.Delete(fk)
+				default:
+					overlay.Put(fk, v)
+				}
+				if tx {
+					m.tx[string(fk)] = append([]byte{}, v...)
+				} else {
+					m.blk[string(fk)] = append([]byte{}, v...)
+				}
+				wrote = true
+				other(-1)
+			default:
+				ctx.Failf("harness: unknown scan step %q", st.A)
+			}
+		}
+		layer := "block-layer"
+		if tx {
+			layer = "tx-layer"
+		}
+		for j, c := range curs {
+			if c == nil {
+				continue
+			}
+			for !c.done {
+				adv(j)
+			}
+			if err := c.it.Error(); err != nil {
+				ctx.Failf("%s %s scan script: iterator error %v", where, layer, err)
+			}
+			c.it.Release()
+			if d := diffPairs(expect(c.pfx), c.want); d != "" {
+				panic("harness: a scan script changed the keys under its own prefix: " + d)
+			}
+			got := c.got
+			shown := c.pfx
+			if tx {
+				shown = c.pfx[1:]
+			}
+			if d := diffPairs(got, c.want); d != "" {
+				ctx.Failf("%s %s scan script (iterator %d, prefix %x, other operations between creation and First: %v, between advances: %v, writes outside the prefixes: %v) differs from the model's visible live keys under that prefix: %s",
+					where, layer, j, shown, c.between, c.betweenN, wrote, d)
+			}
+			if c.between {
+				ctx.Label("scan-script:ops-before-first")
+			}
+			if c.betweenN {
+				ctx.Label("scan-script:ops-between-next")
+			}
+		}
+		if wrote {
+			ctx.Label("scan-script:outside-writes")
+		}
+	}
 	// pick resolves an index into the keys mentioned so far (so that writes hit existing keys)
 	pick := func(p int, txOnly bool) []byte {
 		var cand []string
@@ -486,6 +727,10 @@ func runC10Body(ctx0 *ev.Ctx, c c10Case) {
 			sget(where, op.K)
 		case "siter":
 			siter(where, op.K)
+		case "tscan":
+			script(where, op, true)
+		case "bscan":
+			script(where, op, false)
 		default:
 			ctx.Failf("harness: unknown op %q", op.Op)
 		}
@@ -498,7 +743,7 @@ func runC10Body(ctx0 *ev.Ctx, c c10Case) {
 
 func TestC10(t *testing.T) {
 	ev.Drive(t, "C10",
-		"cases: an in-memory LevelDB store pre-filled with 0..20 non-empty items, one OverlayDB (block layer) and one CacheDB (transaction layer, adds the ST_STORAGE prefix byte); histories of 1..40 (thorough 100) operations put/delete/get/prefix-scan/commit/reset at both layers plus block commits to the store through OverlayDB.CommitTo or through the write set, keys over a 3-letter alphabet (incl. 0xff) of length 0..3 under prefix bytes 0x04/0x05/0x06; every block commit and the end of the history is followed by a full comparison of all three views. "+
+		"cases: an in-memory LevelDB store pre-filled with 0..20 non-empty items, one OverlayDB (block layer) and one CacheDB (transaction layer, adds the ST_STORAGE prefix byte); histories of 1..40 (thorough 100) operations put/delete/get/prefix-scan/commit/reset at both layers plus block commits to the store through OverlayDB.CommitTo or through the write set, keys over a 3-letter alphabet (incl. 0xff) of length 0..3 under prefix bytes 0x04/0x05/0x06; scan scripts interleave reads, a second iterator with another prefix and writes outside the scanned prefixes between iterator creation, First and the Next calls; every block commit and the end of the history is followed by a full comparison of all three views. "+
 			"non-trivial: a prefix scan is executed while, under that prefix, the scanned join sees a backend-only key, an overwritten key and a deleted key simultaneously; distinct by JSON encoding of the case",
 		genC10, runC10)
 }
